@@ -27,18 +27,22 @@ Record cfg := mkCfg {
   max_inb : option N;     (* max_concurrent_inbound_requests *)
   ndial : N;              (* peers 0..ndial-1 have a known address: dial() is accepted *)
   max_size : N;           (* codec: UnsignedVarint(Some(max_size)) *)
-  tmo : N                 (* request timeout, ms *)
+  tmo : N;                (* request timeout, ms *)
+  selfp : bool            (* peer SELF_PEER is the local peer id: dial() fails with TriedToDialSelf *)
 }.
+Definition SELF_PEER : N := 3.
 
-Record req := mkReq { q_rid : N; q_len : N; q_tag : N }.
+(* q_fb: the alternative request (fallback protocol name, length, tag) of send_request_with_fallback *)
+Record req := mkReq { q_rid : N; q_len : N; q_tag : N; q_fb : option (N * N * N) }.
 Record pout := mkPo { po_sid : N; po_peer : N; po_req : req }.
 Record fut := mkFut {
   f_peer : N; f_req : req; f_chan : N;
   f_wait : bool;          (* false: sending the request; true: waiting for the response *)
   f_dl : N;               (* deadline of the current phase *)
-  f_cancel : bool         (* cancel signal sent, not yet looked at *)
+  f_cancel : bool;        (* cancel signal sent, not yet looked at *)
+  f_neg : N               (* fallback name the substream was negotiated with (0 = the main protocol) *)
 }.
-Record rdr := mkRd { r_peer : N; r_irid : N; r_chan : N }.
+Record rdr := mkRd { r_peer : N; r_irid : N; r_chan : N; r_neg : N (* negotiated fallback name, 0 = none *) }.
 Record rsp := mkRs { s_irid : N; s_chan : N; s_w : option (N * N * N) (* len, tag, deadline *);
                      s_fb : bool (* send_response_with_feedback *) }.
 
@@ -73,10 +77,16 @@ Inductive out :=
 | OResp (rid len tag : N)               (* RequestResponseEvent::ResponseReceived *)
 | OFail (rid code : N)                  (* RequestResponseEvent::RequestFailed *)
 | OReq (irid peer len tag : N)          (* RequestResponseEvent::RequestReceived *)
-| OWire (chan len tag : N)              (* a whole frame arrived at the remote end of a carrier *)
+| OWire (chan len tag : N)              (* a whole request frame arrived at the remote end of an outbound carrier *)
+| OWireR (chan len tag : N)             (* a whole response frame arrived at the remote end of an inbound carrier *)
 | OFeed (irid : N) (ok : bool)          (* feedback channel of send_response_with_feedback: () / dropped *)
-| OBind (chan rid : N).                 (* ghost (not printed): on_outbound_substream handed carrier
+| OBind (chan rid : N)                  (* ghost (not printed): on_outbound_substream handed carrier
                                            chan to the future of request rid *)
+| ODial (p : N)                         (* ghost (not printed): TransportService::dial(p) was called and accepted *)
+| OOpen (sid p : N)                     (* TransportService::open_substream(p) returned substream id sid
+                                           (seen by the connection as an OpenSubstream command) *)
+| OFbResp (rid name : N)                (* the ResponseReceived of rid names fallback protocol `name` *)
+| OFbReq (irid name : N).               (* the RequestReceived of irid names fallback protocol `name` *)
 
 (* error codes of RequestFailed *)
 Definition E_CONN_CLOSED : N := 0.      (* Rejected(ConnectionClosed) *)
@@ -103,18 +113,23 @@ Inductive fres := ROk (len tag : N) | RErr (code : N).
 
 (* handle_user_command(SendRequest) after RequestResponseHandle::send_request allocated the id.
    open_ok / sid: result of TransportService::open_substream; dial_ok: result of dial(). *)
-Definition h_send (s : pst) (p : N) (dial : bool) (len tag : N) (open_ok dial_ok : bool) (sid : N)
+Definition h_send (s : pst) (p : N) (dial : bool) (len tag : N) (fb : option (N * N * N))
+           (open_ok dial_ok : bool) (sid : N)
   : pst * list out :=
   let rid := next_rid s in
-  let q := mkReq rid len tag in
+  let q := mkReq rid len tag fb in
   let s := set_next_rid s (rid + 1) in
   if memN p (peers s) then
     if open_ok then
-      (set_pouts (set_active s (active s ++ [(p, rid)])) (pouts s ++ [mkPo sid p q]), [OSent rid])
+      (set_pouts (set_active s (active s ++ [(p, rid)])) (pouts s ++ [mkPo sid p q]), [OSent rid; OOpen sid p])
     else (s, [OSent rid; OFail rid E_SUBSTREAM])
   else if negb dial then (s, [OSent rid; OFail rid E_NOT_CONNECTED])
-  else if dial_ok then (set_dials s (dials s ++ [(p, q)]), [OSent rid])
+  else if dial_ok then (set_dials s (dials s ++ [(p, q)]), [OSent rid; ODial p])
   else (s, [OSent rid; OFail rid E_DIAL_IMMEDIATE]).
+
+(* RequestResponseHandle::try_send_request drew a request id but the command channel was full
+   (ChannelClogged): the id is gone, nothing was handed to the protocol *)
+Definition h_burn (s : pst) : pst * list out := (set_next_rid s (next_rid s + 1), []).
 
 (* The handler as it was before the repair of F-C13a (pending_dials.insert(peer, ctx) overwrote the
    entry of a peer that was already being dialed). Used only by the refutation witness in
@@ -122,7 +137,7 @@ Definition h_send (s : pst) (p : N) (dial : bool) (len tag : N) (open_ok dial_ok
 Definition h_send_unrepaired (s : pst) (p : N) (dial : bool) (len tag : N) (open_ok dial_ok : bool) (sid : N)
   : pst * list out :=
   let rid := next_rid s in
-  let q := mkReq rid len tag in
+  let q := mkReq rid len tag None in
   let s := set_next_rid s (rid + 1) in
   if memN p (peers s) then
     if open_ok then
@@ -157,7 +172,8 @@ Definition h_established (s : pst) (p : N) (nok : nat) (sid0 : N) : pst * list o
     | okl =>
       (set_pouts (set_active (set_peers s (peers s ++ [p]))
                     (active s ++ map (fun d => (p, q_rid (snd d))) okl))
-                 (pouts s ++ number_pouts p sid0 okl), bad)
+                 (pouts s ++ number_pouts p sid0 okl),
+       bad ++ map (fun po => OOpen (po_sid po) p) (number_pouts p sid0 okl))
     end
   end.
 
@@ -219,33 +235,42 @@ Definition complete (s : pst) (f : fut) (r : fres) : pst * list out :=
 
 (* on_outbound_substream on carrier c, followed by the first poll of the new future.
    gate: 0 = the carrier does not accept bytes yet, 1 = it does, 2 = writing fails. *)
-Definition opened_body (cf : cfg) (s : pst) (po : pout) (c gate now : N) : pst * list out :=
+(* on_outbound_substream picks the fallback request when the substream was negotiated with the
+   fallback name given to send_request_with_fallback *)
+Definition chosen (q : req) (neg : N) : N * N :=
+  match q_fb q with
+  | Some (name, l, t) => if negb (neg =? 0) && (name =? neg) then (l, t) else (q_len q, q_tag q)
+  | None => (q_len q, q_tag q)
+  end.
+
+Definition opened_body (cf : cfg) (s : pst) (po : pout) (c gate now neg : N) : pst * list out :=
   let s := set_pouts s (drop_po po (pouts s)) in
-  let q := po_req po in
+  let q0 := po_req po in
+  let q := mkReq (q_rid q0) (fst (chosen q0 neg)) (snd (chosen q0 neg)) (q_fb q0) in
   let p := po_peer po in
   if max_size cf <? q_len q then settle s p (q_rid q) (RErr E_TOO_LARGE)
   else match gate with
-       | 0 => (set_futs s (futs s ++ [mkFut p q c false (now + tmo cf) false]), [])
-       | 1 => (set_futs s (futs s ++ [mkFut p q c true (now + tmo cf) false]),
+       | 0 => (set_futs s (futs s ++ [mkFut p q c false (now + tmo cf) false neg]), [])
+       | 1 => (set_futs s (futs s ++ [mkFut p q c true (now + tmo cf) false neg]),
                [OWire c (q_len q) (q_tag q)])
        | _ => settle s p (q_rid q) (RErr E_SUBSTREAM)
        end.
 
-Definition h_opened (cf : cfg) (s : pst) (sid c gate now : N) : pst * list out :=
+Definition h_opened (cf : cfg) (s : pst) (sid c gate now neg : N) : pst * list out :=
   match find_po sid (pouts s) with
   | None => (s, [])
   | Some po =>
-    let '(s1, o) := opened_body cf s po c gate now in
+    let '(s1, o) := opened_body cf s po c gate now neg in
     (s1, OBind c (q_rid (po_req po)) :: o)
   end.
 
 Definition find_fut (c : N) (l : list fut) : option fut := find (fun f => f_chan f =? c) l.
 (* the future on carrier c finished sending and now waits until dl *)
 Definition to_wait (c dl : N) (l : list fut) : list fut :=
-  map (fun f => if f_chan f =? c then mkFut (f_peer f) (f_req f) (f_chan f) true dl false else f) l.
+  map (fun f => if f_chan f =? c then mkFut (f_peer f) (f_req f) (f_chan f) true dl false (f_neg f) else f) l.
 (* the cancel signal for the future of request rid is latched *)
 Definition mark_cancel (rid : N) (l : list fut) : list fut :=
-  map (fun f => if q_rid (f_req f) =? rid then mkFut (f_peer f) (f_req f) (f_chan f) (f_wait f) (f_dl f) true else f) l.
+  map (fun f => if q_rid (f_req f) =? rid then mkFut (f_peer f) (f_req f) (f_chan f) (f_wait f) (f_dl f) true (f_neg f) else f) l.
 
 (* the carrier starts accepting bytes *)
 Definition fut_unblock (cf : cfg) (s : pst) (c now : N) : pst * list out :=
@@ -266,9 +291,14 @@ Definition fut_breakw (s : pst) (c : N) : pst * list out :=
   end.
 
 (* something arrives on the read side of an outbound carrier *)
+(* ResponseReceived carries the fallback name the substream was negotiated with *)
+Definition fb_resp (f : fut) (o : list out) : list out :=
+  if f_neg f =? 0 then []
+  else flat_map (fun x => match x with OResp rid _ _ => [OFbResp rid (f_neg f)] | _ => [] end) o.
+
 Definition fut_read (s : pst) (c : N) (r : fres) : pst * list out :=
   match find_fut c (futs s) with
-  | Some f => if f_wait f then complete s f r else (s, [])
+  | Some f => if f_wait f then let '(s1, o) := complete s f r in (s1, o ++ fb_resp f o) else (s, [])
   | None => (s, [])
   end.
 
@@ -297,13 +327,13 @@ Definition h_cancel (s : pst) (rid : N) : pst * list out :=
 Definition inbound_load (s : pst) : N := N.of_nat (length (rdrs s)) + N.of_nat (length (rsps s)).
 
 (* on_inbound_substream *)
-Definition h_inopen (cf : cfg) (s : pst) (p c : N) : pst * list out :=
+Definition h_inopen (cf : cfg) (s : pst) (p c neg : N) : pst * list out :=
   let full := match max_inb cf with Some m => m <=? inbound_load s | None => false end in
   if full then (s, []) else
   let irid := next_rid s in
   let s := set_next_rid s (irid + 1) in
   if memN p (peers s) then
-    (set_rdrs (set_inb s (inb s ++ [(p, irid)])) (rdrs s ++ [mkRd p irid c]), [])
+    (set_rdrs (set_inb s (inb s ++ [(p, irid)])) (rdrs s ++ [mkRd p irid c neg]), [])
   else (s, []).
 
 Definition find_rd (c : N) (l : list rdr) : option rdr := find (fun r => r_chan r =? c) l.
@@ -318,7 +348,9 @@ Definition h_inread (s : pst) (c : N) (good : bool) (len tag : N) : pst * list o
     let key := (r_peer r, r_irid r) in
     if memN (r_peer r) (peers s) && memP key (inb s) then
       let s := set_inb s (removeP key (inb s)) in
-      if good then (set_rsps s (rsps s ++ [mkRs (r_irid r) c None false]), [OReq (r_irid r) (r_peer r) len tag])
+      if good then (set_rsps s (rsps s ++ [mkRs (r_irid r) c None false]),
+                    OReq (r_irid r) (r_peer r) len tag ::
+                    (if r_neg r =? 0 then [] else [OFbReq (r_irid r) (r_neg r)]))
       else (s, [])
     else (s, [])
   end.
@@ -342,7 +374,7 @@ Definition h_uresp (cf : cfg) (s : pst) (irid len tag : N) (fb : bool) (gate now
            | 0 => (set_rsps s (map (fun x => if s_irid x =? irid
                                              then mkRs irid (s_chan r) (Some (len, tag, now + tmo cf)) fb else x)
                                    (rsps s)), [])
-           | 1 => (set_rsps s (drop_rs irid (rsps s)), OWire (s_chan r) len tag :: feed fb irid true)
+           | 1 => (set_rsps s (drop_rs irid (rsps s)), OWireR (s_chan r) len tag :: feed fb irid true)
            | _ => (set_rsps s (drop_rs irid (rsps s)), feed fb irid false)
            end
     end
@@ -359,7 +391,7 @@ Definition rsp_gate (s : pst) (c : N) (ok : bool) : pst * list out :=
     match s_w r with
     | Some (len, tag, _) =>
       (set_rsps s (drop_rs (s_irid r) (rsps s)),
-       (if ok then [OWire c len tag] else []) ++ feed (s_fb r) (s_irid r) ok)
+       (if ok then [OWireR c len tag] else []) ++ feed (s_fb r) (s_irid r) ok)
     | None => (s, [])
     end
   | None => (s, [])
@@ -377,7 +409,14 @@ Definition rsp_advance_out (s : pst) (now : N) : list out :=
 
 Record chan := mkCh { c_gate : N; c_seen : bool; c_out : bool }.
 
+(* mgr: the transport manager is alive (else dial() fails with TaskClosed);
+   caps: capacity of each scripted connection's command channel (0 = roomy);
+   cused: one entry per OpenSubstream command that sits in a connection's command channel
+          (the transport reads them only after the protocol has run: EDrain) *)
+Record aux := mkAux { a_mgr : bool; a_caps : list (N * N); a_cused : list N }.
+
 Record env := mkE {
+  aux_of : aux;
   next_sid : N;
   conns : list (N * bool);      (* scripted connections: (peer, command channel still read) *)
   opens : list (N * N);         (* substream-open commands not answered yet: (sid, peer) *)
@@ -386,12 +425,22 @@ Record env := mkE {
   hpend : list N                (* RequestResponseHandle::pending_responses *)
 }.
 
-Definition init_env : env := mkE 0 [] [] [] 0 [].
+Definition init_env : env := mkE (mkAux true [] []) 0 [] [] [] 0 [].
+Definition mgr (e : env) : bool := a_mgr (aux_of e).
 
 Definition conn_of (p : N) (e : env) : option bool :=
   match find (fun x => fst x =? p) (conns e) with Some x => Some (snd x) | None => None end.
+Definition cap_of (p : N) (e : env) : N :=
+  match find (fun x => fst x =? p) (a_caps (aux_of e)) with Some x => snd x | None => 0 end.
+(* open_substream succeeds: the connection reads commands and its channel has room *)
 Definition open_ok (p : N) (e : env) : bool :=
-  match conn_of p e with Some ok => ok | None => false end.
+  match conn_of p e with
+  | Some ok => ok && ((cap_of p e =? 0) ||
+                      (N.of_nat (length (filter (N.eqb p) (a_cused (aux_of e)))) <? cap_of p e))
+  | None => false
+  end.
+Definition with_aux (e : env) (a : aux) : env :=
+  mkE a (next_sid e) (conns e) (opens e) (chans e) (now e) (hpend e).
 
 Definition nth_mod {A} (k : N) (l : list A) : option A :=
   match l with
@@ -403,12 +452,12 @@ Definition set_chan (c : N) (ch : chan) (l : list chan) : list chan :=
   firstn (N.to_nat c) l ++ [ch] ++ skipn (S (N.to_nat c)) l.
 
 Inductive ev :=
-| ESend (p : N) (dial : bool) (len tag : N)
+| ESend (p : N) (dial : bool) (len tag : N) (fb : option (N * N * N))
 | ECancel (rid : N)
 | EEstablished (p : N) (broken : bool) (cap : N)
 | EClosed (p : N)
 | EDialFail (p : N)
-| EOpened (k gate : N)
+| EOpened (k gate neg : N)
 | EOpenFail (k : N) (unsupported : bool)
 | EUnblock (k : N)
 | EBreakW (k : N)
@@ -416,11 +465,14 @@ Inductive ev :=
 | EEof (k : N)
 | EErr (k : N)
 | EAdvance (dt : N)
-| EInOpen (p gate : N)
+| EInOpen (p gate neg : N)
 | EInReq (k len tag : N)
 | EURespond (k len tag : N) (fb : bool)
 | EUReject (k : N)
-| EBreakConn (p : N).
+| EBreakConn (p : N)
+| EBurn
+| EDropManager
+| EDrain.              (* the scripted connections read their command channels *)
 
 Definition sent_of (o : list out) : list N :=
   flat_map (fun x => match x with OReq irid _ _ _ => [irid] | _ => [] end) o.
@@ -430,15 +482,18 @@ Definition sent_of (o : list out) : list N :=
 Definition step (cf : cfg) (st : pst * env) (e : ev) : (pst * env) * list out * option N :=
   let '(s, en) := st in
   match e with
-  | ESend p dial len tag =>
+  | ESend p dial len tag fb =>
     let connected := memN p (peers s) in
     let ok := open_ok p en in
-    let '(s1, o) := h_send s p dial len tag ok (p <? ndial cf) (next_sid en) in
+    let dial_ok := (p <? ndial cf) && mgr en && negb (selfp cf && (p =? SELF_PEER)) in
+    let '(s1, o) := h_send s p dial len tag fb ok dial_ok (next_sid en) in
     (* open_substream draws a substream id before it talks to the connection *)
     let en1 := if connected
                then match conn_of p en with
-                    | Some true => mkE (next_sid en + 1) (conns en) (opens en ++ [(next_sid en, p)]) (chans en) (now en) (hpend en)
-                    | Some false => mkE (next_sid en + 1) (conns en) (opens en) (chans en) (now en) (hpend en)
+                    | Some _ =>
+                      if ok then mkE (mkAux (mgr en) (a_caps (aux_of en)) (a_cused (aux_of en) ++ [p]))
+                                     (next_sid en + 1) (conns en) (opens en ++ [(next_sid en, p)]) (chans en) (now en) (hpend en)
+                      else mkE (aux_of en) (next_sid en + 1) (conns en) (opens en) (chans en) (now en) (hpend en)
                     | None => en
                     end
                else en in
@@ -455,7 +510,9 @@ Definition step (cf : cfg) (st : pst * env) (e : ev) : (pst * env) * list out * 
       let opened := firstn nok tried in
       let '(s1, o) := h_established s p nok (next_sid en) in
       (* every attempt draws a substream id, also the failing ones *)
-      let en1 := mkE (next_sid en + N.of_nat (length tried)) (conns en ++ [(p, negb broken)])
+      let en1 := mkE (mkAux (mgr en) (filter (fun x => negb (fst x =? p)) (a_caps (aux_of en)) ++ [(p, cap)])
+                            (a_cused (aux_of en) ++ map (fun _ => p) opened))
+                     (next_sid en + N.of_nat (length tried)) (conns en ++ [(p, negb broken)])
                      (opens en ++ map (fun po => (po_sid po, p)) (number_pouts p (next_sid en) opened))
                      (chans en) (now en) (hpend en) in
       (s1, en1, o, None)
@@ -465,21 +522,21 @@ Definition step (cf : cfg) (st : pst * env) (e : ev) : (pst * env) * list out * 
     | None => (s, en, [], None)
     | Some _ =>
       let '(s1, o) := h_closed s p in
-      let en1 := mkE (next_sid en) (filter (fun x => negb (fst x =? p)) (conns en))
+      let en1 := mkE (aux_of en) (next_sid en) (filter (fun x => negb (fst x =? p)) (conns en))
                      (filter (fun x => negb (snd x =? p)) (opens en)) (chans en) (now en) (hpend en) in
       (s1, en1, o, None)
     end
   | EDialFail p =>
     let '(s1, o) := h_dialfail s p in (s1, en, o, None)
-  | EOpened k gate =>
+  | EOpened k gate neg =>
     match nth_mod k (opens en) with
     | None => (s, en, [], None)
     | Some (sid, _) =>
       let c := N.of_nat (length (chans en)) in
       let g := N.min gate 2 in
-      let '(s1, o) := h_opened cf s sid c g (now en) in
+      let '(s1, o) := h_opened cf s sid c g (now en) neg in
       let seen := existsb (fun x => match x with OWire _ _ _ => true | _ => false end) o in
-      let en1 := mkE (next_sid en) (conns en) (filter (fun x => negb (fst x =? sid)) (opens en))
+      let en1 := mkE (aux_of en) (next_sid en) (conns en) (filter (fun x => negb (fst x =? sid)) (opens en))
                      (chans en ++ [mkCh g seen true]) (now en) (hpend en) in
       (s1, en1, o, Some sid)
     end
@@ -488,7 +545,7 @@ Definition step (cf : cfg) (st : pst * env) (e : ev) : (pst * env) * list out * 
     | None => (s, en, [], None)
     | Some (sid, _) =>
       let '(s1, o) := h_openfail s sid unsupported in
-      let en1 := mkE (next_sid en) (conns en) (filter (fun x => negb (fst x =? sid)) (opens en))
+      let en1 := mkE (aux_of en) (next_sid en) (conns en) (filter (fun x => negb (fst x =? sid)) (opens en))
                      (chans en) (now en) (hpend en) in
       (s1, en1, o, Some sid)
     end
@@ -503,7 +560,7 @@ Definition step (cf : cfg) (st : pst * env) (e : ev) : (pst * env) * list out * 
           let '(s1, o1) := fut_unblock cf s c (now en) in
           let '(s2, o2) := rsp_gate s1 c true in
           let seen := c_seen ch || (c_out ch && negb (match o1 with [] => true | _ => false end)) in
-          let en1 := mkE (next_sid en) (conns en) (opens en) (set_chan c (mkCh 1 seen (c_out ch)) (chans en))
+          let en1 := mkE (aux_of en) (next_sid en) (conns en) (opens en) (set_chan c (mkCh 1 seen (c_out ch)) (chans en))
                          (now en) (hpend en) in
           (s2, en1, o1 ++ o2, Some c)
         else (s, en, [], Some c)
@@ -520,7 +577,7 @@ Definition step (cf : cfg) (st : pst * env) (e : ev) : (pst * env) * list out * 
         if c_gate ch =? 2 then (s, en, [], Some c) else
         let '(s1, o1) := fut_breakw s c in
         let '(s2, o2) := rsp_gate s1 c false in
-        let en1 := mkE (next_sid en) (conns en) (opens en) (set_chan c (mkCh 2 (c_seen ch) (c_out ch)) (chans en))
+        let en1 := mkE (aux_of en) (next_sid en) (conns en) (opens en) (set_chan c (mkCh 2 (c_seen ch) (c_out ch)) (chans en))
                        (now en) (hpend en) in
         (s2, en1, o1 ++ o2, Some c)
       | None => (s, en, [], None)
@@ -573,15 +630,15 @@ Definition step (cf : cfg) (st : pst * env) (e : ev) : (pst * env) * list out * 
   | EAdvance dt =>
     let t := now en + dt in
     let '(s1, o) := fut_advance s t in
-    (rsp_advance s1 t, mkE (next_sid en) (conns en) (opens en) (chans en) t (hpend en), o ++ rsp_advance_out s1 t, None)
-  | EInOpen p gate =>
+    (rsp_advance s1 t, mkE (aux_of en) (next_sid en) (conns en) (opens en) (chans en) t (hpend en), o ++ rsp_advance_out s1 t, None)
+  | EInOpen p gate neg =>
     match conn_of p en with
     | None => (s, en, [], None)
     | Some _ =>
       let c := N.of_nat (length (chans en)) in
       let g := N.min gate 2 in
-      let '(s1, o) := h_inopen cf s p c in
-      (s1, mkE (next_sid en) (conns en) (opens en) (chans en ++ [mkCh g false false]) (now en) (hpend en), o, Some c)
+      let '(s1, o) := h_inopen cf s p c neg in
+      (s1, mkE (aux_of en) (next_sid en) (conns en) (opens en) (chans en ++ [mkCh g false false]) (now en) (hpend en), o, Some c)
     end
   | EInReq k len tag =>
     match chans en with
@@ -592,7 +649,7 @@ Definition step (cf : cfg) (st : pst * env) (e : ev) : (pst * env) * list out * 
       | Some ch =>
         if negb (c_out ch) then
           let '(s1, o) := h_inread s c (len <=? max_size cf) len tag in
-          (s1, mkE (next_sid en) (conns en) (opens en) (set_chan c (mkCh (c_gate ch) true false) (chans en))
+          (s1, mkE (aux_of en) (next_sid en) (conns en) (opens en) (set_chan c (mkCh (c_gate ch) true false) (chans en))
                    (now en) (hpend en ++ sent_of o), o, Some c)
         else (s, en, [], Some c)
       | None => (s, en, [], None)
@@ -607,7 +664,7 @@ Definition step (cf : cfg) (st : pst * env) (e : ev) : (pst * env) * list out * 
                               | Some ch => c_gate ch | None => 2 end
                   | None => 2 end in
       let '(s1, o) := h_uresp cf s irid len tag fb gate (now en) in
-      (s1, mkE (next_sid en) (conns en) (opens en) (chans en) (now en)
+      (s1, mkE (aux_of en) (next_sid en) (conns en) (opens en) (chans en) (now en)
                (filter (fun x => negb (x =? irid)) (hpend en)), o, Some irid)
     end
   | EUReject k =>
@@ -615,12 +672,17 @@ Definition step (cf : cfg) (st : pst * env) (e : ev) : (pst * env) * list out * 
     | None => (s, en, [], None)
     | Some irid =>
       let '(s1, o) := h_urej s irid in
-      (s1, mkE (next_sid en) (conns en) (opens en) (chans en) (now en)
+      (s1, mkE (aux_of en) (next_sid en) (conns en) (opens en) (chans en) (now en)
                (filter (fun x => negb (x =? irid)) (hpend en)), o, Some irid)
     end
   | EBreakConn p =>
-    (s, mkE (next_sid en) (map (fun x => if fst x =? p then (p, false) else x) (conns en))
+    (s, mkE (aux_of en) (next_sid en) (map (fun x => if fst x =? p then (p, false) else x) (conns en))
             (opens en) (chans en) (now en) (hpend en), [], None)
+  | EBurn => let '(s1, o) := h_burn s in (s1, en, o, None)
+  | EDropManager =>
+    (s, with_aux en (mkAux false (a_caps (aux_of en)) (a_cused (aux_of en))), [], None)
+  | EDrain =>
+    (s, with_aux en (mkAux (mgr en) (a_caps (aux_of en)) []), [], None)
   end.
 
 (* the whole run: flat list of everything observed *)
@@ -657,3 +719,96 @@ Definition terms (r : N) (tr : list out) : nat := length (filter (is_term r) tr)
 
 (* nothing is owed any more: no pending dial, no substream being opened, no future in flight *)
 Definition quiescent (s : pst) : Prop := dials s = [] /\ pouts s = [] /\ futs s = [].
+
+(* ------------------------------------------------------------------ the transport contract
+
+   What the environment (transport service, connections, remote peers, the clock) still owes the
+   protocol, computed from the stimuli, the resolved targets and the CALLS the protocol made
+   (ODial, OOpen, OBind) — never from the protocol's private maps:
+   - a dial that was accepted is owed ConnectionEstablished or DialFailure;
+   - an accepted open_substream is owed SubstreamOpened or SubstreamOpenFailure (a
+     ConnectionClosed of that peer discharges all of its opens);
+   - a carrier handed to a request future is owed an answer, an end of stream, or the passing of
+     the request timeout (counted from the hand-over, and again from the moment the request frame
+     went out); it is discharged once a terminal event for its request was seen. *)
+Record ghost := mkG {
+  g_now : N;
+  g_conn : list N;                 (* peers reported connected *)
+  g_dials : list N;                (* peers with an accepted, unanswered dial *)
+  g_opens : list (N * N);          (* (substream id, peer): accepted, unanswered open_substream *)
+  g_live : list (N * N * N)        (* (carrier, request id, deadline) *)
+}.
+Definition g0 : ghost := mkG 0 [] [] [] [].
+
+Definition o_dials (o : list out) : list N :=
+  flat_map (fun x => match x with ODial p => [p] | _ => [] end) o.
+Definition o_opens (o : list out) : list (N * N) :=
+  flat_map (fun x => match x with OOpen sid p => [(sid, p)] | _ => [] end) o.
+Definition o_binds (o : list out) : list (N * N) :=
+  flat_map (fun x => match x with OBind c rid => [(c, rid)] | _ => [] end) o.
+Definition o_terms (o : list out) : list N :=
+  flat_map (fun x => match x with OResp r _ _ => [r] | OFail r _ => [r] | _ => [] end) o.
+Definition o_wired (c : N) (o : list out) : bool :=
+  existsb (fun x => match x with OWire c' _ _ => c' =? c | _ => false end) o.
+
+Definition gstep (cf : cfg) (e : ev) (o : list out) (tg : option N) (g : ghost) : ghost :=
+  let now' := match e with EAdvance dt => g_now g + dt | _ => g_now g end in
+  let conn' := match e with
+               | EEstablished p _ _ => if memN p (g_conn g) then g_conn g else g_conn g ++ [p]
+               | EClosed p => filter (fun x => negb (x =? p)) (g_conn g)
+               | _ => g_conn g end in
+  let answered_dial := match e with
+                       | EDialFail p => [p]
+                       | EEstablished p _ _ => if memN p (g_conn g) then [] else [p]
+                       | _ => [] end in
+  let dials' := filter (fun x => negb (memN x answered_dial)) (g_dials g) ++ o_dials o in
+  let opens0 := match e, tg with
+                | EOpened _ _ _, Some sid | EOpenFail _ _, Some sid =>
+                    filter (fun x => negb (fst x =? sid)) (g_opens g)
+                | EClosed p, _ => if memN p (g_conn g) then filter (fun x => negb (snd x =? p)) (g_opens g)
+                                  else g_opens g
+                | _, _ => g_opens g end in
+  let opens' := opens0 ++ o_opens o in
+  let rearmed := match e, tg with
+                 | EUnblock _, Some c =>
+                     if o_wired c o
+                     then map (fun x => if fst (fst x) =? c then (c, snd (fst x), g_now g + tmo cf) else x) (g_live g)
+                     else g_live g
+                 | _, _ => g_live g end in
+  let live' := filter (fun x => negb (memN (snd (fst x)) (o_terms o)))
+                      (rearmed ++ map (fun b => (fst b, snd b, g_now g + tmo cf)) (o_binds o)) in
+  mkG now' conn' dials' opens' live'.
+
+Fixpoint grun (cf : cfg) (g : ghost) (l : list (ev * list out * option N)) : ghost :=
+  match l with
+  | [] => g
+  | (e, o, tg) :: t => grun cf (gstep cf e o tg g) t
+  end.
+
+(* the environment has discharged everything it owes *)
+Definition discharged (g : ghost) : Prop :=
+  g_dials g = [] /\ g_opens g = [] /\ forall x, In x (g_live g) -> snd x <= g_now g.
+
+(* ------------------------------------------------------------------ the bounded event channel
+
+   The model hands the user an unbounded list of events per step.  The implementation pushes
+   them through a bounded mpsc channel: `event_tx.send(..).await` parks the event loop in the
+   middle of a handler while the channel is full and resumes when the user has taken an event.
+   This little relay says why that is the same thing: whatever the interleaving of pushes (only
+   when there is room) and pops, nothing is lost, duplicated or reordered. *)
+Record relay := mkRelay { rl_pending : list out; rl_queue : list out; rl_delivered : list out }.
+Inductive rmove := RPush | RPop.
+Definition relay_step (cap : nat) (st : relay) (m : rmove) : relay :=
+  match m with
+  | RPush => match rl_pending st with
+             | x :: p => if Nat.ltb (length (rl_queue st)) cap
+                         then mkRelay p (rl_queue st ++ [x]) (rl_delivered st) else st
+             | [] => st
+             end
+  | RPop => match rl_queue st with
+            | x :: q => mkRelay (rl_pending st) q (rl_delivered st ++ [x])
+            | [] => st
+            end
+  end.
+Definition relay_run (cap : nat) (o : list out) (ms : list rmove) : relay :=
+  fold_left (relay_step cap) ms (mkRelay o [] []).
